@@ -37,6 +37,23 @@ v("C12", "guard_across_await", [("src/providers/diagnostics.rs",
   "        let mut diagnostics: Vec<Diagnostic> = Vec::new();\n        let _cached_text = self.fixture_db.file_cache.get(file_path);\n\n        // Get config")],
   r"R1c\|.*publish_diagnostics_for_file.*file_cache:S")
 
+v("C12", "conftest_walk_continue_before_parent_step", [("src/fixtures/resolver.rs",
+  "            // Then check if the conftest imports this fixture\n            // Check both filesystem and file cache for conftest existence\n            let conftest_in_cache = self.file_cache.contains_key(&conftest_path);\n            if (conftest_path.exists() || conftest_in_cache)",
+  "            // Then check if the conftest imports this fixture\n            // Check both filesystem and file cache for conftest existence\n            let conftest_in_cache = self.file_cache.contains_key(&conftest_path);\n            if conftest_in_cache && self.plugin_fixture_files.contains_key(&conftest_path) {\n                continue;\n            }\n            if (conftest_path.exists() || conftest_in_cache)")],
+  r"R1e\|.*find_closest_definition_with_filter\|parent-walk")
+v("C12", "decorator_scan_continue_without_decrement", [("src/fixtures/resolver.rs",
+  "                // Another decorator — keep scanning upward",
+  "                if trimmed.starts_with(\"@@\") {\n                    continue;\n                }\n                // Another decorator — keep scanning upward")],
+  r"R1e\|.*has_fixture_decorator_above\|counter")
+v("C12", "cycle_dfs_push_without_visited_test", [("src/fixtures/resolver.rs",
+  "                    } else if !visited.contains(dep) {\n                        // Explore this dependency\n",
+  "                    } else {\n                        // Explore this dependency\n")],
+  r"R1e\|.*compute_fixture_cycles\|worklist")
+v("C11", "cycle_dfs_visited_shrinks", [("src/fixtures/resolver.rs",
+  "                    // Done with this node\n                    visited.insert(current.clone());\n                    rec_stack.remove(&current);",
+  "                    // Done with this node\n                    visited.insert(current.clone());\n                    if path.len() > 64 {\n                        visited.remove(&path[0]);\n                    }\n                    rec_stack.remove(&current);")],
+  r"R1e\|.*compute_fixture_cycles\|worklist")
+
 # ----------------------------------------------------------------------------------------------- C09
 v("C09", "remove_if_to_remove", [("src/fixtures/analyzer.rs",
   "                self.definitions\n                    .remove_if(&fixture_name, |_, defs| defs.is_empty());",
